@@ -12,7 +12,7 @@ PID = "C13"
 HERE = os.path.dirname(os.path.abspath(__file__))
 TEMPLATE = os.path.join(HERE, "ch", "c13.py")
 CONDITIONS = ["check_single", "check_full_output", "check_single_defaults", "check_scalar_forcing",
-              "check_parse_domain", "check_parse_met", "check_parse_solver"]
+              "check_parse_domain", "check_parse_reference_origin", "check_parse_met", "check_parse_solver"]
 TWINS = ["twin_single", "twin_parse"]
 DESCRIBE = {
     "check_single": "run_bldfm_single hands (speed, dir) to the wind decomposition, (n, tower height, (u,v), mol, closure, z0-else-ustar) to the profiles, the configured or supplied flux, tower x,y, levels, modes, halo, precision, flags, cache to the solver; result carries timestamp/params/tower",
@@ -20,6 +20,7 @@ DESCRIBE = {
     "check_single_defaults": "None-valued options (default halo, no src_loc, no cache) and real booleans pass through",
     "check_scalar_forcing": "scalar forcing, all defaults",
     "check_parse_domain": "YAML file == dict; domain/tower defaults and local coordinates",
+    "check_parse_reference_origin": "reference origin on the equator / Greenwich meridian (0 or 0.0): tower local coordinates = latlon_to_xy",
     "check_parse_met": "YAML file == dict; met defaults",
     "check_parse_solver": "YAML file == dict; solver/output/parallel defaults",
 }
